@@ -1,0 +1,125 @@
+//go:build verif
+
+package search
+
+// Read-only views of the unexported AVL tree types for the model-based
+// verification harness (/verif, property C07). Nothing here changes a tree or
+// an iterator; the file is only compiled with the build tag "verif".
+
+// VerifNode is a structural copy of one treeNode.
+type VerifNode struct {
+	Value    Value
+	Balance  int
+	Left     *VerifNode
+	Right    *VerifNode
+	ParentOK bool // the node's parent pointer is the node it hangs from (nil for the root)
+	Deleted  bool // the node is linked into the tree although it is marked deleted
+}
+
+// verifMaxNodes bounds a dump so that a corrupted (cyclic) tree is reported rather than followed forever.
+const verifMaxNodes = 1 << 16
+
+func verifDump(node *treeNode, parent *treeNode, budget *int) (*VerifNode, bool) {
+	if node == nil {
+		return nil, true
+	}
+	*budget--
+	if *budget < 0 {
+		return nil, false
+	}
+	out := &VerifNode{Value: node.v, Balance: int(node.balance), ParentOK: node.parent == parent, Deleted: node.isDeleted()}
+	var ok bool
+	if out.Left, ok = verifDump(node.left, node, budget); !ok {
+		return nil, false
+	}
+	if out.Right, ok = verifDump(node.right, node, budget); !ok {
+		return nil, false
+	}
+	return out, true
+}
+
+// VerifDumpTokens returns the shape of the tree of tokens (Value is a
+// string). complete is false if more than 65536 nodes were reachable, ie the
+// structure is not a tree.
+func VerifDumpTokens(t *TreeIndex) (root *VerifNode, complete bool) {
+	budget := verifMaxNodes
+	root, complete = verifDump(t.lists.root, nil, &budget)
+	if root != nil {
+		verifTokens(root)
+	}
+	return root, complete
+}
+
+func verifTokens(n *VerifNode) {
+	if n != nil {
+		n.Value = n.Value.(treeIndexEntry).token
+		verifTokens(n.Left)
+		verifTokens(n.Right)
+	}
+}
+
+// VerifDumpList returns the shape of the tree of values held under token.
+// exists is false if the index has no list for the token.
+func VerifDumpList(t *TreeIndex, token string) (root *VerifNode, exists bool, complete bool) {
+	e, ok := t.lists.Lookup(token)
+	if !ok {
+		return nil, false, true
+	}
+	budget := verifMaxNodes
+	root, complete = verifDump(e.(treeIndexEntry).list.root, nil, &budget)
+	return root, true, complete
+}
+
+// VerifValidateList runs the package's own treeList.Validate on the list
+// held under token (true if there is no such list).
+func VerifValidateList(t *TreeIndex, token string) bool {
+	if e, ok := t.lists.Lookup(token); ok {
+		return e.(treeIndexEntry).list.Validate()
+	}
+	return true
+}
+
+// VerifValidateTokens runs treeList.Validate on the tree of tokens.
+func VerifValidateTokens(t *TreeIndex) bool {
+	return t.lists.Validate()
+}
+
+// VerifCursor describes where an iterator returned by TreeIndex.Begin stands.
+type VerifCursor struct {
+	Started bool
+	Done    bool
+	HasNode bool
+	Value   Value // value of the node the iterator rests on
+	Deleted bool  // that node has been deleted from the tree
+	// Values of the (possibly stale) children of the node, for telling apart
+	// cursors on deleted nodes.
+	HasLeft, HasRight bool
+	Left, Right       Value
+}
+
+// VerifIteratorCursor returns the cursor of an iterator obtained from
+// TreeIndex.Begin; ok is false for any other iterator (eg the empty one).
+func VerifIteratorCursor(i Iterator) (c VerifCursor, ok bool) {
+	var it *treeListIterator
+	switch i := i.(type) {
+	case *treeIndexEntryIterator:
+		it = &i.treeListIterator
+	case *treeListIterator:
+		it = i
+	default:
+		return VerifCursor{}, false
+	}
+	c = VerifCursor{Started: it.started, Done: it.done}
+	if it.node != nil {
+		c.HasNode = true
+		c.Value = it.node.v
+		c.Deleted = it.node.isDeleted()
+		if it.node.left != nil {
+			c.HasLeft, c.Left = true, it.node.left.v
+		}
+		if it.node.right != nil {
+			c.HasRight, c.Right = true, it.node.right.v
+		}
+	}
+	return c, true
+}
